@@ -60,9 +60,13 @@ type PeerCfg struct {
 	MSEProvide     uint32 // default 3
 	ID             []byte
 
-	Have      func(i int) bool
-	Advertise int // 0 bitfield; 1 have-all/have-none when possible; 2 individual haves; 3 nothing
-	Reqq      int // value advertised in the extended handshake; -1: absent
+	Have func(i int) bool
+	// HaveUnverifiable: in a sparse torrent, advertise also the pieces whose
+	// hash in the metainfo is not the true one (a peer that claims
+	// everything and delivers nothing: deep request pipelines at no cost)
+	HaveUnverifiable bool
+	Advertise        int // 0 bitfield; 1 have-all/have-none when possible; 2 individual haves; 3 nothing; 4 lazy bitfield (some pieces left out and announced by haves right behind it)
+	Reqq             int // value advertised in the extended handshake; -1: absent
 	// extended handshake
 	ExtV         string
 	ExtP         int   // advertised listening port (0: absent)
@@ -80,9 +84,9 @@ type PeerCfg struct {
 	AnswerDelay   func() time.Duration
 	AnswerFn      func(p *RefPeer, r refwire.Request) int // overrides AnswerWeights
 
-	OnMessage func(p *RefPeer, m refwire.Message) bool // true: handled, skip the default
-	OnReady   func(p *RefPeer)                          // after the handshakes
-	StopRead  bool                                      // never read (congestion)
+	OnMessage   func(p *RefPeer, m refwire.Message) bool // true: handled, skip the default
+	OnReady     func(p *RefPeer)                         // after the handshakes
+	StopRead    bool                                     // never read (congestion)
 	NoKeepAlive bool
 	NoMonitor   bool // a peer that misbehaves on purpose does not judge the system's answers
 }
@@ -132,16 +136,19 @@ type RefPeer struct {
 	wake     simrt.WaitQ
 
 	// what the system told us
-	SysHS        refwire.Handshake
-	SysExt       *refwire.ExtHandshake
-	SysExtIDs    map[string]int64
-	SysHave      map[int]bool
-	SysBitfield  []byte
-	SysHaveAll   bool
+	SysHS         refwire.Handshake
+	// RepliesToOurHandshake counts the connections we opened on which the
+	// system answered our handshake with its own (never reset)
+	RepliesToOurHandshake int
+	SysExt        *refwire.ExtHandshake
+	SysExtIDs     map[string]int64
+	SysHave       map[int]bool
+	SysBitfield   []byte
+	SysHaveAll    bool
 	SysInterested bool
 	SysUnchokedUs bool
-	Recv         []RecvMsg
-	Encrypted    bool
+	Recv          []RecvMsg
+	Encrypted     bool
 
 	// what we told the system
 	Have        []bool
@@ -154,45 +161,46 @@ type RefPeer struct {
 	SentReqq    int
 
 	// requests from the system
-	Outstanding map[blk]*sysReq // received, not answered/cancelled
-	ReqLog      []*sysReq
+	Outstanding    map[blk]*sysReq // received, not answered/cancelled
+	ReqLog         []*sysReq
 	MaxOutstanding int
 	// requests we made to the system
-	MyReqs  []*myReq
-	chokesRecv [][2]uint64 // (tick, epoch) of every choke received
-	rawAdvertised bool     // the scenario sent advertisements of its own
-	everAdvertised map[int]bool
-	everUnchoked   bool
-	PexAnnounced   map[string]bool // what the system has announced to us over PEX and not dropped
-	PexMsgs        int
-	writing        bool
+	MyReqs           []*myReq
+	chokesRecv       [][2]uint64 // (tick, epoch) of every choke received
+	lastChokeEpoch   int         // epoch of the last choke we sent on this connection (-1: none)
+	rawAdvertised    bool        // the scenario sent advertisements of its own
+	everAdvertised   map[int]bool
+	everUnchoked     bool
+	PexAnnounced     map[string]bool // what the system has announced to us over PEX and not dropped
+	PexMsgs          int
+	writing          bool
 	sentMisaddressed bool // we sent data under a wrong address: the system may take it for the answer to another request
-	lastSend       time.Time
-	wq             simrt.WaitQ
-	OnEvent func(ev string)
-	Viol    func(prop, oracle, class, format string, args ...any)
+	lastSend         time.Time
+	wq               simrt.WaitQ
+	OnEvent          func(ev string)
+	Viol             func(prop, oracle, class, format string, args ...any)
 }
 
 type sysReq struct {
-	Req       refwire.Request
-	Tick      uint64
-	Epoch     int
-	Answered  bool
-	Cancelled bool
+	Req         refwire.Request
+	Tick        uint64
+	Epoch       int
+	Answered    bool
+	Cancelled   bool
 	AnswerEpoch int
-	Kind      int
+	Kind        int
 }
 
 type myReq struct {
-	Req        refwire.Request
-	Tick       uint64
-	Epoch      int
+	Req           refwire.Request
+	Tick          uint64
+	Epoch         int
 	WhileUnchoked bool
-	UnchokeGen int
-	Cancelled  bool
-	CancelEpoch int
-	Answered   int
-	Rejected   bool
+	UnchokeGen    int
+	Cancelled     bool
+	CancelEpoch   int
+	Answered      int
+	Rejected      bool
 }
 
 func (w *World) NewPeer(spec *TorSpec, cfg PeerCfg) *RefPeer {
@@ -209,7 +217,7 @@ func (w *World) NewPeer(spec *TorSpec, cfg PeerCfg) *RefPeer {
 	p.Addr = netip.AddrPortFrom(ip, uint16(cfg.Port))
 	p.Have = make([]bool, spec.Geo.NPieces)
 	for i := range p.Have {
-		if cfg.Have != nil && cfg.Have(i) && spec.Live(i) {
+		if cfg.Have != nil && cfg.Have(i) && (spec.Live(i) || cfg.HaveUnverifiable) {
 			p.Have[i] = true // (nobody can hold a piece of a sparse torrent that cannot be verified)
 		}
 	}
@@ -238,6 +246,7 @@ func (p *RefPeer) resetConn() {
 	p.SysBitfield, p.SysHaveAll = nil, false
 	p.SysInterested, p.SysUnchokedUs = false, false
 	p.ChokingSys, p.UnchokeSent = true, false
+	p.lastChokeEpoch = -1
 	p.Outstanding = map[blk]*sysReq{}
 	p.actions = nil
 	p.everAdvertised = map[int]bool{}
@@ -334,6 +343,7 @@ func (p *RefPeer) handshake(initiate bool) error {
 			return err
 		}
 		p.SysHS = sh
+		p.RepliesToOurHandshake++
 		return nil
 	}
 	// responder: plain or MSE, decided by the first bytes
@@ -480,6 +490,11 @@ func (p *RefPeer) run(initiate bool) {
 }
 
 func (p *RefPeer) Send(m refwire.Message) error {
+	if p.W.rc.S.LogOn() {
+		if _, isPiece := m.(refwire.Piece); !isPiece {
+			p.W.rc.S.Logf("%s sends %s", p.Cfg.Name, briefMsg(m))
+		}
+	}
 	return p.SendRaw(refwire.Encode(m))
 }
 
@@ -560,6 +575,23 @@ func (p *RefPeer) sendPreamble() {
 			}
 		}
 		p.noteAdvertised()
+	case c.Advertise == 4 && !none:
+		// a lazy bitfield: a few pieces are left out of the bitfield and
+		// announced by have messages in the same burst
+		bits := p.bitfield()
+		var later []int
+		for i, h := range p.Have {
+			if h && p.W.st.Bool(1, 3) {
+				bits[i/8] &^= 0x80 >> uint(i%8)
+				later = append(later, i)
+			}
+		}
+		p.Send(refwire.Bitfield{Bits: bits})
+		for _, i := range later {
+			p.Send(refwire.Have{Index: uint32(i)})
+		}
+		simrt.Probe("lazy-bitfield")
+		p.noteAdvertised()
 	default:
 		if !none || !fast {
 			p.Send(refwire.Bitfield{Bits: p.bitfield()})
@@ -583,6 +615,9 @@ func (p *RefPeer) sendPreamble() {
 		p.After(c.UnchokeAfter, p.Unchoke)
 	}
 }
+
+// DrawAdvertise draws the way a peer announces its pieces.
+func DrawAdvertise(st *simrt.Stream) int { return simrt.Pick(st, 0, 1, 2, 4) }
 
 func (p *RefPeer) noteAdvertised() {
 	if p.everAdvertised == nil {
@@ -622,6 +657,7 @@ func (p *RefPeer) Choke() {
 	}
 	p.ChokingSys = true
 	p.ChokeEpoch = p.W.Epoch
+	p.lastChokeEpoch = p.W.Epoch
 	p.Send(refwire.Choke{})
 	// BEP 6: with the fast extension a choke does not discard requests
 	// implicitly: we reject them explicitly; without it they are void
@@ -674,6 +710,11 @@ func (p *RefPeer) SetHave(i int, have bool) {
 
 func (p *RefPeer) receive(m refwire.Message) {
 	p.Recv = append(p.Recv, RecvMsg{Tick: p.W.rc.Tick(), At: p.W.rc.S.Now(), Epoch: p.W.Epoch, Msg: m})
+	if p.W.rc.S.LogOn() {
+		if _, isPiece := m.(refwire.Piece); !isPiece {
+			p.W.rc.S.Logf("%s receives %s", p.Cfg.Name, briefMsg(m))
+		}
+	}
 	if !p.Cfg.NoMonitor {
 		p.conform(m)
 	}
@@ -1051,8 +1092,22 @@ func (p *RefPeer) conform(m refwire.Message) {
 				return
 			}
 		}
-		if r := p.Outstanding[blk{i, m.Begin}]; r != nil && !p.sentMisaddressed {
-			p.Viol("C11", "request-duplicate", "", "%s: request (%d, %d) is already outstanding on this connection", p.Cfg.Name, i, m.Begin)
+		// (without the fast extension a choke voids the requests the system
+		// had sent when it *handled* the choke: an earlier request that
+		// arrived after the last quiescent point before which we did not
+		// choke may have been voided that way, and asking again is right)
+		if r := p.Outstanding[blk{i, m.Begin}]; r != nil && !p.sentMisaddressed && (fast || p.lastChokeEpoch < r.Epoch) {
+			hist := ""
+			for _, r := range p.ReqLog {
+				if r.Req.Index == m.Index && r.Req.Begin == m.Begin {
+					hist += fmt.Sprintf(" [received epoch %d, answered=%v with %s at epoch %d, cancelled=%v]", r.Epoch, r.Answered, ansNames[r.Kind], r.AnswerEpoch, r.Cancelled)
+				}
+			}
+			recent := ""
+			for _, rm := range p.Recv[max(0, len(p.Recv)-10):] {
+				recent += fmt.Sprintf(" {e%d %v %s}", rm.Epoch, rm.At, briefMsg(rm.Msg))
+			}
+			p.Viol("C11", "request-duplicate", "", "%s: request (%d, %d) is already outstanding on this connection; requests for this block:%s; last messages received:%s; choking=%v allowed-fast=%v", p.Cfg.Name, i, m.Begin, hist, recent, p.ChokingSys, p.FastSent[i])
 			return
 		}
 		limit := 250 // BEP 10 default when no reqq was advertised
@@ -1060,12 +1115,21 @@ func (p *RefPeer) conform(m refwire.Message) {
 			limit = p.SentReqq
 		}
 		limit = max(limit, 2)
-		if len(p.Outstanding)+1 > limit {
+		// (same caveat as for duplicates: without the fast extension only
+		// requests that arrived after a quiescent point that followed our
+		// last choke are known not to have been voided by it)
+		nout := 1
+		for _, r := range p.Outstanding {
+			if fast || p.lastChokeEpoch < r.Epoch {
+				nout++
+			}
+		}
+		if nout > limit {
 			class := ""
 			if p.SentReqq == 0 {
 				class = "reqq-zero"
 			}
-			p.Viol("C11", "request-pipeline", class, "%s: %d requests outstanding, advertised queue depth %d", p.Cfg.Name, len(p.Outstanding)+1, p.SentReqq)
+			p.Viol("C11", "request-pipeline", class, "%s: %d requests outstanding, advertised queue depth %d", p.Cfg.Name, nout, p.SentReqq)
 		}
 	case refwire.Cancel:
 		var last *sysReq
